@@ -39,11 +39,22 @@ def _c3(i, bases):
 
 
 def run_history(flavour, ops, via_components=False):
+    # which intermediate states are looked at is part of the history (a lookup re-validates a verifying
+    # registry's snapshot): every subset of intermediate observation points is run, the final state always
+    for mask in range(1 << max(0, len(ops) - 1)):
+        for warm in ((True, False) if mask == 0 else (True,)):
+            _run_history(flavour, ops, mask, warm)
+
+
+def _run_history(flavour, ops, mask, warm):
     u = M.RegUniverse(flavour=flavour, nregs=NREG)         # initial chain 0 -> 1 -> 2 -> 3
     model = M.Model(NREG)
-    _obs(u)
+    if warm:
+        _obs(u)
     for k, op in enumerate(ops):
         RP.apply_op(u, model, op)
+        if k < len(ops) - 1 and not (mask >> k) & 1:
+            continue
         got = _obs(u)
         # oracle: a freshly constructed chain with the current __bases__ and the current registrations
         fresh = M.RegUniverse(flavour=flavour, nregs=NREG, bases=dict(u.reg_bases))
@@ -61,8 +72,9 @@ def run_history(flavour, ops, via_components=False):
                 if order is not None and list(u.regs[rj].ro) != [u.regs[x] for x in order]:
                     stale = rj
             sig = ('C06:stale-ro-below-rebased-registry:%s' % flavour) if stale is not None else 'C06:answers-differ:%s' % flavour
-            raise Violation('%s chain 0->1->2->3, history [%s]: reg%d %r = %r, a freshly built chain with the same __bases__ and '
-                            'registrations answers %r%s' % (flavour, RP.fmt(ops[:k + 1]), ri, key, g, e,
+            raise Violation('%s chain 0->1->2->3, history [%s] (lookups after steps %s%s): reg%d %r = %r, a freshly built chain with the same __bases__ and '
+                            'registrations answers %r%s' % (flavour, RP.fmt(ops[:k + 1]), [j + 1 for j in range(k) if (mask >> j) & 1] + [k + 1],
+                                                           '' if warm else ', none before the first step', ri, key, g, e,
                                                            '' if stale is None else ' (reg%d.ro is not the C3 order of its current bases)' % stale),
                             signature=sig)
         for rj in range(NREG):
